@@ -369,10 +369,11 @@ impl Check for C08 {
                     }
                     _ => (twin(&mut e, &env, &ty, 0), "layout-twin"),
                 };
-                if !ctx.strict {
-                    if let Some(r) = known_region(&env, &ty, &wire_ty, tags.contains(&"map"), 0) {
-                        return Outcome::Skip(r);
-                    }
+                // Regions of the open findings are not skipped: there the judge tolerates
+                // exactly the recorded direction (by signature, counted) and still reports
+                // the opposite one (native accepting what the generic path rejects).
+                if let Some(r) = known_region(&env, &ty, &wire_ty, tags.contains(&"map"), 0) {
+                    ctx.class(r.trim_start_matches("excluded-known:"));
                 }
                 let mut b = Builder::new(&env);
                 let root = match b.ty(&wire_ty) {
